@@ -436,7 +436,9 @@ pub fn recover_via_executable(img: &DirImage, seed: u64, known_ids: &[Uuid]) -> 
                     Ok(r) if r.status >= 500 => return Err(format!("the restarted executable answered {} to GET {path}", r.status)),
                     Ok(_) => {}
                     Err(e) => {
-                        let gone = matches!(run.child.try_wait(), Ok(Some(_)));
+                        use std::os::unix::process::ExitStatusExt;
+                        // (a server killed from outside - SIGKILL, the kernel's OOM killer - did not die of this directory)
+                        let gone = matches!(run.child.try_wait(), Ok(Some(st)) if st.signal() != Some(9));
                         return Err(if gone { format!("the restarted executable died on GET {path}: {e}") } else { format!("MACHINERY: the restarted executable did not answer GET {path} in time: {e}") });
                     }
                 }
@@ -590,6 +592,70 @@ pub fn explore(rec: &Recorded, p: &CrashParams, part: usize, parts: usize) -> (C
                 }
             }
         }
+        // images are recovered as they are produced (a point with thousands of subsets of
+        // megabyte files must not sit in memory all at once)
+        macro_rules! drain_images {
+            () => {
+                for (img, label) in images.drain(..) {
+                    st.images += 1;
+                    if label.starts_with("process") {
+                        st.process_images += 1;
+                    } else if label.contains("torn") {
+                        st.torn_images += 1;
+                    } else {
+                        st.power_images += 1;
+                    }
+                    // identical image with identical obligations: already recovered
+                    if !seen.insert((image_hash(&img), acked_model_idx, inflight.is_some())) {
+                        continue;
+                    }
+                    st.distinct_images += 1;
+                    let r = recover(&img, p.seed, &known_ids, true);
+                    let where_ = format!("crash point {point} (log entry {idx}: {}), {} acknowledged, in flight: {:?}, image: {label}", match e { LogEntry::Call { call, .. } => call.brief(), LogEntry::Marker(m) => format!("<{m}>") }, acked_model_idx, inflight);
+                    match r {
+                        Err(msg) => {
+                            let class = if msg.contains("integrity_check") { "integrity" } else if msg.contains("does not open") { "does-not-open" } else if msg.contains("after recovery") { "service-does-not-continue" } else { "inconsistent" };
+                            findings.push(CrashFinding { class: format!("{class}|{}", label.split(' ').next().unwrap_or("")), msg: format!("{msg} — {where_}"), point, image: label });
+                        }
+                        Ok(got) => {
+                            if p.via_exec == 2 || (p.via_exec == 1 && label.starts_with("process")) {
+                                st.exec_recoveries += 1;
+                                match recover_via_executable(&img, p.seed, &known_ids) {
+                                    Ok(g2) if g2 == got => {}
+                                    Ok(g2) => findings.push(CrashFinding {
+                                        class: format!("executable-start-up-changes-what-is-recovered|{}", label.split(' ').next().unwrap_or("")),
+                                        msg: format!("the library recovers {:?} from this image, but after the real executable was started on it (and killed) {:?} is left — {where_}", summarize(&got), summarize(&g2)),
+                                        point,
+                                        image: label.clone(),
+                                    }),
+                                    Err(m2) if m2.starts_with("MACHINERY:") => findings.push(CrashFinding { class: "machinery".into(), msg: format!("{m2} — {where_}"), point, image: label.clone() }),
+                                    Err(m2) => findings.push(CrashFinding {
+                                        class: format!("executable-start-up-breaks-recovery|{}", label.split(' ').next().unwrap_or("")),
+                                        msg: format!("the library recovers {:?} from this image, but through the real executable: {m2} — {where_}", summarize(&got)),
+                                        point,
+                                        image: label.clone(),
+                                    }),
+                                }
+                            }
+                            if got == *allowed[0] {
+                                st.recovered_before += 1;
+                            } else if allowed.len() > 1 && got == *allowed[1] {
+                                st.recovered_after += 1;
+                            } else {
+                                let lost = allowed[0].clients.iter().any(|(c, (chain, _))| got.clients.get(c).map(|g| g.0.len() < chain.len()).unwrap_or(!chain.is_empty()));
+                                let class = if lost { "acknowledged-data-lost" } else { "half-applied-or-unexpected" };
+                                findings.push(CrashFinding {
+                                    class: format!("{class}|{}", label.split(' ').next().unwrap_or("")),
+                                    msg: format!("recovered state matches neither the acknowledged prefix nor prefix+in-flight request: recovered {:?}, acknowledged {:?} — {where_}", summarize(&got), summarize(allowed[0])),
+                                    point,
+                                    image: label,
+                                });
+                            }
+                        }
+                    }
+                }
+            };
+        }
         for mask in &masks {
             let mut img = DirImage::new();
             for (name, f) in &fs.files {
@@ -635,65 +701,11 @@ pub fn explore(rec: &Recorded, p: &CrashParams, part: usize, parts: usize) -> (C
                     }
                 }
             }
-        }
-        for (img, label) in images {
-            st.images += 1;
-            if label.starts_with("process") {
-                st.process_images += 1;
-            } else if label.contains("torn") {
-                st.torn_images += 1;
-            } else {
-                st.power_images += 1;
-            }
-            // identical image with identical obligations: already recovered
-            if !seen.insert((image_hash(&img), acked_model_idx, inflight.is_some())) {
-                continue;
-            }
-            st.distinct_images += 1;
-            let r = recover(&img, p.seed, &known_ids, true);
-            let where_ = format!("crash point {point} (log entry {idx}: {}), {} acknowledged, in flight: {:?}, image: {label}", match e { LogEntry::Call { call, .. } => call.brief(), LogEntry::Marker(m) => format!("<{m}>") }, acked_model_idx, inflight);
-            match r {
-                Err(msg) => {
-                    let class = if msg.contains("integrity_check") { "integrity" } else if msg.contains("does not open") { "does-not-open" } else if msg.contains("after recovery") { "service-does-not-continue" } else { "inconsistent" };
-                    findings.push(CrashFinding { class: format!("{class}|{}", label.split(' ').next().unwrap_or("")), msg: format!("{msg} — {where_}"), point, image: label });
-                }
-                Ok(got) => {
-                    if p.via_exec == 2 || (p.via_exec == 1 && label.starts_with("process")) {
-                        st.exec_recoveries += 1;
-                        match recover_via_executable(&img, p.seed, &known_ids) {
-                            Ok(g2) if g2 == got => {}
-                            Ok(g2) => findings.push(CrashFinding {
-                                class: format!("executable-start-up-changes-what-is-recovered|{}", label.split(' ').next().unwrap_or("")),
-                                msg: format!("the library recovers {:?} from this image, but after the real executable was started on it (and killed) {:?} is left — {where_}", summarize(&got), summarize(&g2)),
-                                point,
-                                image: label.clone(),
-                            }),
-                            Err(m2) if m2.starts_with("MACHINERY:") => findings.push(CrashFinding { class: "machinery".into(), msg: format!("{m2} — {where_}"), point, image: label.clone() }),
-                            Err(m2) => findings.push(CrashFinding {
-                                class: format!("executable-start-up-breaks-recovery|{}", label.split(' ').next().unwrap_or("")),
-                                msg: format!("the library recovers {:?} from this image, but through the real executable: {m2} — {where_}", summarize(&got)),
-                                point,
-                                image: label.clone(),
-                            }),
-                        }
-                    }
-                    if got == *allowed[0] {
-                        st.recovered_before += 1;
-                    } else if allowed.len() > 1 && got == *allowed[1] {
-                        st.recovered_after += 1;
-                    } else {
-                        let lost = allowed[0].clients.iter().any(|(c, (chain, _))| got.clients.get(c).map(|g| g.0.len() < chain.len()).unwrap_or(!chain.is_empty()));
-                        let class = if lost { "acknowledged-data-lost" } else { "half-applied-or-unexpected" };
-                        findings.push(CrashFinding {
-                            class: format!("{class}|{}", label.split(' ').next().unwrap_or("")),
-                            msg: format!("recovered state matches neither the acknowledged prefix nor prefix+in-flight request: recovered {:?}, acknowledged {:?} — {where_}", summarize(&got), summarize(allowed[0])),
-                            point,
-                            image: label,
-                        });
-                    }
-                }
+            if images.len() >= 4 {
+                drain_images!();
             }
         }
+        drain_images!();
     }
     // device-model conformance
     let mut conf = None;
